@@ -48,7 +48,7 @@ from runner import Infra, TieBroken
 
 ID = "C13"
 LEAN_MODULES = ["PyYetiVerif.Props.C13", "PyYetiVerif.Props.C13Text", "PyYetiVerif.Props.C13Dmig", "PyYetiVerif.Props.C13Grid",
-                "PyYetiVerif.Props.C13Cord", "PyYetiVerif.Props.C13DmigX", "PyYetiVerif.Props.C13Fmt", "PyYetiVerif.Props.C13Multi", "PyYetiVerif.Props.C13Values", "PyYetiVerif.Props.C13Uset", "PyYetiVerif.Audit.C13"]
+                "PyYetiVerif.Props.C13Cord", "PyYetiVerif.Props.C13DmigX", "PyYetiVerif.Props.C13Fmt", "PyYetiVerif.Props.C13Multi", "PyYetiVerif.Props.C13Values", "PyYetiVerif.Props.C13Uset", "PyYetiVerif.Props.C13Set", "PyYetiVerif.Audit.C13"]
 AUDIT_FILE = "PyYetiVerif/Audit/C13.lean"
 THEOREMS = [
     "PyYetiVerif.C13." + n
@@ -69,7 +69,7 @@ THEOREMS = [
         "readers_independent typed_readers_independent sets_in_file wtset_is_segment "
         "real_field_reads real_field_accuracy real_field_clean tabled1_roundtrip_values grid_roundtrip_values "
         "cord2_roundtrip_values dmig_roundtrip_values dmig_lines_int_instance "
-        "uset_bulk_roundtrip_labels uset_bulk_roundtrip_labels_full"
+        "uset_bulk_roundtrip_labels uset_bulk_roundtrip_labels_full set_header_split_fails set_roundtrip_iff_partial"
     ).split()
 ]
 TRUSTED = [
@@ -145,9 +145,11 @@ ASSUMPTIONS = [
     "does not write scalar points (documented: 'CORD2* and GRID cards')",
 ]
 PARTIAL = (
-    "wtset with a max_length shorter than a token: the converse of set_roundtrip (a split token makes the round trip "
-    "fail) is not proved in Lean — the exact condition 'round trip iff every token fits' is checked model-free on the real "
-    "code for every max_length 2..26 and by the exact-text stream of the split lines; user-supplied `form` strings of "
+    "set_roundtrip_iff is proved only as set_roundtrip_iff_partial: 'rdsets(wtset(...)) = {id: ids} iff every token fits "
+    "max_length' holds in Lean for <= always and for => when the token that does not fit is the head `SET n = ` with at "
+    "least two columns missing (set_header_split_fails: rdsets then returns {}); => for a cut ITEM token and for "
+    "len(head) = max_length + 1 is not proved — the equivalence is checked model-free on the real code for every "
+    "max_length 2..26 and the cut lines are tied by the exact-text stream; user-supplied `form` strings of "
     "wtgrids / wttabled1 other than the defaults stay opaque tokens (reader returns nas_sscanf(token)); rdcord2cards is "
     "modelled up to the twelve numbers per card handed to n2p.build_coords and bulk2uset up to the labels (id, dof, "
     "nasset, cd id and type) and the written coordinates — the geometry of build_coords / addgrid is C14 (tied through the "
